@@ -43,6 +43,10 @@ PROP = dict(
              shards=_groups(PAIRING, 4)),
         dict(name="kernels", pkg="c09", run="^TestC09_Kernels$", workers=VARIANTS, checks=(1500, 30000), seeds=(2, 4)),
     ] + [
+        # white-box (overlay), same process: exported (assembly) entry points vs their portable *Generic twins
+        dict(name="wb-twins." + f.replace("/", "_"), kind="overlay", pkg=FIELD_PKG[f], run="^TestVerifC09_", checks=(1500, 30000))
+        for f in FIELDS
+    ] + [
         dict(name="c01-%s-%s" % (t, v["name"]), pkg="c01", run="^TestC01_%s$" % t.capitalize(), tags=v.get("tags", ""),
              env=v.get("env", {}), checks=(c // 2, c * 5), shards=_groups(FIELDS, 2, prefix="^"))
         for v in VARIANTS for (t, c) in (("unary", 3000), ("binary", 3000), ("vector", 500))
